@@ -23,10 +23,18 @@ import (
 	"testing"
 	"time"
 
+	"github.com/lestrrat-go/jwx/v2/jwk"
 	ssi "github.com/nuts-foundation/go-did"
 	"github.com/nuts-foundation/go-did/did"
 	"github.com/nuts-foundation/go-did/vc"
+	"github.com/nuts-foundation/nuts-node/audit"
+	nutsCrypto "github.com/nuts-foundation/nuts-node/crypto"
+	"github.com/nuts-foundation/nuts-node/jsonld"
+	"github.com/nuts-foundation/nuts-node/vcr/holder"
 	"github.com/nuts-foundation/nuts-node/vcr/pe"
+	"github.com/nuts-foundation/nuts-node/vdr/didjwk"
+	"github.com/nuts-foundation/nuts-node/vdr/resolver"
+	"github.com/piprate/json-gold/ld"
 	"github.com/sirupsen/logrus"
 
 	"verif/crash"
@@ -598,8 +606,9 @@ func keys[V any](m map[string]V) []string {
 }
 
 type namedDef struct {
-	name string
-	def  definitionT
+	name   string
+	def    definitionT
+	holder bool // also driven through the product's holder presenter (real signing)
 }
 
 var typeField = fieldT{Path: []string{"$.type"}, Filter: &filterT{Type: "string", Const: sp("OrgCredential")}}
@@ -619,7 +628,7 @@ func grammarFields() []namedDef {
 					} else {
 						d.Constraints.Fields = []fieldT{f}
 					}
-					out = append(out, namedDef{fmt.Sprintf("F/%s/%s/opt%d/type=%v", pk, fk, oi, withType), definitionT{ID: "pd", InputDescriptors: []descriptorT{d}}})
+					out = append(out, namedDef{name: fmt.Sprintf("F/%s/%s/opt%d/type=%v", pk, fk, oi, withType), def: definitionT{ID: "pd", InputDescriptors: []descriptorT{d}}})
 				}
 			}
 		}
@@ -651,10 +660,37 @@ func grammarFormats() []namedDef {
 				d1.Constraints.Fields = []fieldT{typeField}
 				d2 := descriptorT{ID: "d2", Format: fa[c]}
 				d2.Constraints.Fields = []fieldT{xField}
-				out = append(out, namedDef{fmt.Sprintf("FMT/pd=%s/d1=%s/d2=%s", a, b, c), definitionT{ID: "pd", Format: fa[a], InputDescriptors: []descriptorT{d1, d2}}})
+				out = append(out, namedDef{name: fmt.Sprintf("FMT/pd=%s/d1=%s/d2=%s", a, b, c), def: definitionT{ID: "pd", Format: fa[a], InputDescriptors: []descriptorT{d1, d2}}, holder: c == "none"})
 			}
 		}
 	}
+	return out
+}
+
+// grammarMulti: 2-3 descriptors without requirements, chosen so that ONE credential satisfies several descriptors and
+// several credentials satisfy one; all of them also go through the holder presenter.
+func grammarMulti() []namedDef {
+	pool := []fieldT{
+		typeField,
+		{ID: sp("x"), Path: pathAlphabet["x"], Filter: &filterT{Type: "string", Const: sp("alpha-1")}},
+		{ID: sp("xab"), Path: pathAlphabet["x"], Filter: &filterT{Type: "string", Pattern: sp("^(alpha|beta)-1$")}},
+		{ID: sp("iss"), Path: []string{"$.issuer"}, Filter: &filterT{Type: "string", Const: sp(issuerDID)}},
+		{ID: sp("nums"), Path: pathAlphabet["nums"], Filter: &filterT{Type: "array"}},
+	}
+	var out []namedDef
+	enum.Subsets(len(pool), 3, func(idx []int) bool {
+		if len(idx) < 2 {
+			return true
+		}
+		var ds []descriptorT
+		for i, k := range idx {
+			d := descriptorT{ID: fmt.Sprintf("d%d", i+1)}
+			d.Constraints.Fields = []fieldT{pool[k]}
+			ds = append(ds, d)
+		}
+		out = append(out, namedDef{name: fmt.Sprintf("MULTI/%v", idx), def: definitionT{ID: "pd", InputDescriptors: ds}, holder: true})
+		return true
+	})
 	return out
 }
 
@@ -761,7 +797,21 @@ func grammarRequirements(thorough bool) []namedDef {
 					if !ok {
 						continue
 					}
-					out = append(out, namedDef{fmt.Sprintf("REQ/v%d/n%d/groups=%v/req#%d", vi, n, idx, ri), definitionT{ID: "pd", InputDescriptors: ds, SubmissionRequirements: rs}})
+					simple := true
+					var chk func(r requirementT)
+					chk = func(r requirementT) {
+						ok := r.Rule == "all" || (r.Count != nil && *r.Count == 1 && r.Min == nil && r.Max == nil) || (r.Min != nil && *r.Min == 1 && r.Max == nil && r.Count == nil)
+						if !ok {
+							simple = false
+						}
+						for _, nr := range r.FromNested {
+							chk(nr)
+						}
+					}
+					for _, r := range rs {
+						chk(r)
+					}
+					out = append(out, namedDef{name: fmt.Sprintf("REQ/v%d/n%d/groups=%v/req#%d", vi, n, idx, ri), def: definitionT{ID: "pd", InputDescriptors: ds, SubmissionRequirements: rs}, holder: simple && n == 2 && idx[0] == 0 && idx[1] <= 1})
 				}
 				k := 0
 				for k < n {
@@ -821,10 +871,12 @@ func TestVerifC12(t *testing.T) {
 	var defs []namedDef
 	defs = append(defs, grammarFields()...)
 	defs = append(defs, grammarFormats()...)
+	defs = append(defs, grammarMulti()...)
 	defs = append(defs, grammarRequirements(r.Thorough())...)
 	r.Rule("definitions = union of three exhaustively enumerated sub-grammars: FIELDS (1 descriptor; field = 7 path sets x 14 filters {none, type-only x4, const x3, enum, pattern with 0/1/2 groups, unanchored one-group pattern, pattern on type} x optional {unset,false,true}, alone and behind a type field), FORMATS (2 descriptors; 7 designations at definition level x 7 at descriptor 1 x 3 at descriptor 2), REQUIREMENTS (2, thorough 3, descriptors over groups {A},{B},{A,B}; descriptor variants: overlapping match sets / disjoint match sets among credentials sharing an id / same claims pinned to one format each; 1-2 requirements from {all, pick count 1/2, min 0/1/2, max 1, min+max, min only, none} per group in both orders plus one nesting level; every group referenced); only schema-valid definitions kept. wallets = every subset (<=3, thorough <=4; quick: <=2 for single-descriptor definitions) of 8 distinct credential objects {matching as ldp and as jwt under ONE id, re-issued clone with other claims under that same id, near(one field off) jwt, near(array-valued field) ldp WITHOUT id and jwt, decoy, byte-identical duplicate of the matching ldp}, identified by content. For EVERY pair the product entry points run: wallet PresentationSubmissionBuilder.Build (a returned submission must present a complete selection), verifier ParseEnvelope+ParsePresentationSubmission+Validate of an empty descriptor map over a presentation holding the whole wallet and over an empty envelope (accepted => zero credentials are complete). For each matching pair: envelopes {single, array-of-1, array-with-decoy-first} x {ldp_vp, jwt_vp}, and every mutation of the correct submission: all enum single mutations of the descriptor map + permute, drop, duplicate (plain / forged first / forged last), retarget, change format, nest/un-nest. A case is distinct by (definition, wallet[, envelope, mutation])")
 	r.Assume("the reference evaluator covers exactly the generated feature set (paths $.a.b / $.a[0].b; filters type/const/enum/pattern; optional; format designations; all/pick/count/min/max, one nesting level); cases outside it are counted as unjudged, never as violations")
 
+	hw := newHolderFixture(t)
 	var rc replayT
 	replaying := r.ReplayCase(&rc)
 	shapesDone := map[string]bool{} // (iv) runs once per selection shape: per shard in quick, per definition in thorough
@@ -994,6 +1046,16 @@ func TestVerifC12(t *testing.T) {
 					if o == "accepted" && zerr == nil && !zeroComplete {
 						r.Violation("C12|validate|accepted-incomplete-submission|empty-map|"+ve.name, fmt.Sprintf("the verifier accepts an empty descriptor map (%s, wallet %v) for a definition that cannot be fulfilled without credentials", ve.name, wnames), replayT{Def: nd.name, Wallet: wnames, Envelope: ve.name, DefJSON: defJSON, SubJSON: emptySub})
 					}
+				}
+			}
+			// ---- the PRODUCT's wallet: vcr/holder presenter (buildSubmission -> buildPresentation with real signing), then the
+			// verifier's ParseEnvelope + ParsePresentationSubmission + Validate on the presentation the wallet actually produced
+			if nd.holder && refOK {
+				for _, vpFormat := range []string{"ldp_vp", "jwt_vp"} {
+					if vpFormat == "ldp_vp" && !r.Thorough() && (di+wi)%2 == 1 && !replaying {
+						continue // quick tier: the (slow) JSON-LD signing for every second pair, JWT for every pair
+					}
+					holderCase(r, guard, hw, nd, pd, defJSON, wvc, wnames, byKey, vpFormat)
 				}
 			}
 			// ---- the wallet side: Match
@@ -1529,4 +1591,156 @@ func structuralMutations(doc map[string]any, entries []mappingT, nCreds int) []m
 		with("swap-ids", c)
 	}
 	return out
+}
+
+// ---------------------------------------------------------------- the product's holder presenter
+
+type holderFixture struct {
+	did    did.DID
+	signer nutsCrypto.MemoryJWTSigner
+	loader ld.DocumentLoader
+	keys   resolver.KeyResolver
+}
+
+func newHolderFixture(t *testing.T) *holderFixture {
+	k := crash.FixedKey(1, 22)
+	j, err := jwk.FromRaw(k)
+	if err != nil {
+		t.Fatal(err)
+	}
+	pub := crash.PublicJWK(k)
+	var id string
+	for i := 0; i < 200; i++ {
+		if i > 0 {
+			pub["kid"] = fmt.Sprintf("k%d", i)
+		}
+		b, _ := json.Marshal(pub)
+		enc := base64.RawStdEncoding.EncodeToString(b)
+		if !strings.ContainsAny(enc, "+/") {
+			id = "did:jwk:" + enc
+			break
+		}
+	}
+	_ = j.Set(jwk.KeyIDKey, id+"#0")
+	return &holderFixture{did: did.MustParseDID(id), signer: nutsCrypto.MemoryJWTSigner{Key: j}, loader: jsonld.NewTestJSONLDManager(t).DocumentLoader(),
+		keys: resolver.DIDKeyResolver{Resolver: didjwk.NewResolver()}}
+}
+
+func holderCase(r *ev.Run, guard func(string, func() string) (string, bool), hw *holderFixture, nd namedDef, pd *pe.PresentationDefinition, defJSON []byte,
+	wvc []vc.VerifiableCredential, wnames []string, byKey map[string]cred, vpFormat string) {
+	wallet := holder.NewMemoryWallet(hw.loader, hw.keys, hw.signer, map[did.DID][]vc.VerifiableCredential{hw.did: wvc})
+	// the verifier's metadata (OpenID designators), offering exactly one presentation format
+	designation := map[string]map[string][]string{"ldp_vc": {"proof_type_values_supported": {"JsonWebSignature2020"}}, "jwt_vc_json": {"alg_values_supported": {"ES256"}}}
+	if vpFormat == "jwt_vp" {
+		designation["jwt_vp_json"] = map[string][]string{"alg_values_supported": {"ES256"}}
+	} else {
+		designation["ldp_vp"] = map[string][]string{"proof_type_values_supported": {"JsonWebSignature2020"}}
+	}
+	var vp *vc.VerifiablePresentation
+	var sub *pe.PresentationSubmission
+	var berr error
+	o, p := guard("holder.BuildSubmission", func() string {
+		vp, sub, berr = wallet.BuildSubmission(audit.TestContext(), []did.DID{hw.did}, nil, *pd, holder.BuildParams{Audience: "https://verifier.example.com", Expires: time.Now().Add(10 * time.Minute), Nonce: "n", Format: designation})
+		if berr != nil {
+			return "error"
+		}
+		return "submission"
+	})
+	rp := replayT{Def: nd.name, Wallet: wnames, Envelope: "holder/" + vpFormat, DefJSON: defJSON}
+	r.Eval(nd.name + "|" + strings.Join(wnames, ",") + "|holder/" + vpFormat)
+	if p {
+		if !strings.Contains(o, "presentation_definition.go") && !strings.Contains(o, "submission_requirement.go") {
+			r.Violation("C12|holder|panic", "holder BuildSubmission panics: "+o, rp)
+		}
+		return
+	}
+	r.Outcome("holder-" + vpFormat + ":" + o)
+	if berr != nil || vp == nil || sub == nil {
+		return
+	}
+	subRaw, _ := json.Marshal(sub)
+	rp.SubJSON = subRaw
+	envRaw := []byte(vp.Raw())
+	if vp.Format() == vc.JSONLDPresentationProofFormat {
+		envRaw, _ = json.Marshal(vp)
+	}
+	var envelope *pe.Envelope
+	verdict, vp2 := guard("Validate(holder)", func() string {
+		var err error
+		envelope, err = pe.ParseEnvelope(envRaw)
+		if err != nil {
+			return "envelope-rejected"
+		}
+		ps, err := pe.ParsePresentationSubmission(subRaw)
+		if err != nil {
+			return "schema-rejected"
+		}
+		if _, err := ps.Validate(*envelope, *pd); err != nil {
+			return "rejected: " + err.Error()
+		}
+		return "accepted"
+	})
+	if vp2 {
+		r.Violation("C12|holder|validate-panic", "the verifier panics on the wallet's own presentation: "+verdict, rp)
+		return
+	}
+	r.Outcome("holder-validate:" + strings.Fields(verdict)[0])
+	// the harness's own resolution of the wallet's descriptor map inside the presentation the wallet produced
+	var envView any
+	if vp.Format() == vc.JWTPresentationProofFormat {
+		envView = vpView(vp.Raw())
+	} else {
+		_ = json.Unmarshal(envRaw, &envView)
+	}
+	var defT definitionT
+	_ = json.Unmarshal(defJSON, &defT)
+	walletMap := map[string]string{}
+	unresolved := ""
+	for _, m := range sub.DescriptorMap {
+		key, judged := resolveEntry(mappingT{ID: m.Id, Format: m.Format, Path: m.Path}, envView)
+		if !judged {
+			return
+		}
+		walletMap[m.Id] = key
+		c, known := byKey[key]
+		if key == "" || !known {
+			unresolved = fmt.Sprintf("entry %s path %s does not resolve to a credential inside the presentation the wallet produced", m.Id, m.Path)
+			continue
+		}
+		for _, d := range defT.InputDescriptors {
+			if d.ID == m.Id {
+				if ok, err := satisfies(defT, d, c); err == nil && !ok {
+					r.Violation("C12|holder|mapped-credential-does-not-satisfy-descriptor", fmt.Sprintf("the wallet maps descriptor %s to credential %s, which does not satisfy it (%s)", d.ID, c.name, vpFormat), rp)
+				}
+			}
+		}
+	}
+	if unresolved != "" {
+		rp.Detail = unresolved
+		r.Violation("C12|holder|own-path-does-not-resolve", "the wallet's own descriptor map does not resolve inside its own presentation: "+unresolved+" (verifier: "+verdict+")", rp)
+		return
+	}
+	if verdict == "accepted" {
+		return
+	}
+	// rejected although every path resolves: the known causes keep their signatures
+	cause := "other"
+	switch {
+	case len(sub.DescriptorMap) == 0:
+		cause = "empty-selection-" + strings.Fields(verdict)[0]
+	default:
+		if sel2, m2, err := pd.Match(envelope.Presentations[0].VerifiableCredential); err == nil {
+			again := map[string]string{}
+			for i, m := range m2 {
+				if i < len(sel2) {
+					again[m.Id] = keyOfVC(sel2[i])
+				}
+			}
+			if !reflect.DeepEqual(again, walletMap) {
+				cause = "rematch-on-presented-credentials-selects-differently"
+			}
+		}
+	}
+	rp.Detail = verdict
+	r.Violation("C12|validate|wallet-submission-rejected|"+cause, fmt.Sprintf("the submission the holder presenter built is %s by the verifier's validation of the same definition (holder/%s)", verdict, vpFormat), rp)
 }
